@@ -20,6 +20,13 @@ def direct_cases(rng):
         out.append(f'#[[[\n# d\n#]]\nset(V {f} {rng.choice(forms)})\n')
         out.append(f'#[[[\n# d\n#]]\nset({f})\n')
         out.append(f'#[[[\n# d\n#]]\noption(O {f})\noption(P "h" {f})\n')
+    # values that are CMake keywords of set() are values like any other as far as the entry goes
+    for kw in ("PARENT_SCOPE", "CACHE", "FORCE", "parent_scope", "INTERNAL"):
+        out.append(f'#[[[\n# d\n#]]\nset(V {kw})\n')
+        out.append(f'#[[[\n# d\n#]]\nset(V result {kw})\n')
+        out.append(f'#[[[\n# d\n#]]\nset(V "${{r}}" {kw})\nset(W a b c {kw})\n')
+        out.append(f'#[[[\n# d\n#]]\nset(V {kw} x)\noption(O "help" {kw})\n')
+    out.append('#[[[\n# d\n#]]\nset(V "v" CACHE STRING "doc" FORCE)\n')
     out.append('#[[[\n#]]\nset()\n')
     out.append('#[[[\n#]]\nSET(V)\noption(O)\noption(a b c d)\nOPTION(X "help")\n')
     return [pipe.norm_case(dict(data=s)) for s in out]
